@@ -173,10 +173,12 @@ def py_sel(s):
 
 def enc_op(op, other_obj):
     k = op["op"]
-    if k in ("add", "sum", "sub", "eq", "compat"):
-        return "(%s %s)" % ({"add": "OAdd", "sum": "OSum", "sub": "OSub", "eq": "OEq", "compat": "OCompat"}[k],
-                            enc_val(other_obj))
-    if k == "mul":
+    if k in ("add", "sum", "sub", "eq", "compat", "iadd", "isub", "accum"):
+        # the augmented forms (y = x; y += o / total = 0; total += x; total += o) have the value of
+        # the plain operators: the model's containers are immutable values
+        return "(%s %s)" % ({"add": "OAdd", "sum": "OSum", "sub": "OSub", "eq": "OEq", "compat": "OCompat",
+                             "iadd": "OAdd", "isub": "OSub", "accum": "OSum"}[k], enc_val(other_obj))
+    if k in ("mul", "imul"):
         return "(OMul %s)" % fq.q(op["k"])
     if k == "mulbool":
         return "OMulBool"
@@ -221,6 +223,23 @@ def execute(x, op, other):
         return sum([x, other])
     if k == "sub":
         return x - other
+    if k == "iadd":
+        y = x
+        y += other
+        return y
+    if k == "isub":
+        y = x
+        y -= other
+        return y
+    if k == "imul":
+        y = x
+        y *= scalar(op)
+        return y
+    if k == "accum":     # the running total every user writes: it starts from 0 and never names x again
+        total = 0
+        total += x
+        total += other
+        return total
     if k in ("mul", "mulbool"):
         return x * scalar(op)
     if k == "eq":
@@ -464,14 +483,15 @@ def g_nonzero_scalar(rng):
 
 OPS = {
     "pc": ["add", "add", "sum", "mul", "mul", "mulbool", "eq", "compat", "bins", "bins", "patches", "patches",
-           "iter_bins", "iter_patches", "sample", "bins_sample", "patches_sample", "mul_sample", "sub"],
+           "iter_bins", "iter_patches", "sample", "bins_sample", "patches_sample", "mul_sample", "sub", "iadd", "accum", "accum", "imul"],
     "sw": ["add", "mul", "eq", "compat", "bins", "bins", "patches", "patches", "iter_bins", "iter_patches",
            "sample", "bins_sample", "patches_sample"],
     "nc": ["add", "add", "sum", "mul", "mul", "mulbool", "eq", "compat", "bins", "bins", "patches", "patches",
-           "iter_bins", "iter_patches", "sample", "bins_sample", "patches_sample", "mul_sample"],
+           "iter_bins", "iter_patches", "sample", "bins_sample", "patches_sample", "mul_sample", "iadd", "accum", "accum",
+           "imul"],
     "cf": ["add", "add", "add", "mul", "mul", "mulbool", "eq", "compat", "bins", "bins", "patches", "patches",
-           "iter_bins", "iter_patches", "sample", "bins_sample", "patches_sample", "mul_sample"],
-    "sd": ["add", "add", "sub", "sub", "eq", "compat", "bins", "bins", "bins", "iter_bins", "mul"],
+           "iter_bins", "iter_patches", "sample", "bins_sample", "patches_sample", "mul_sample", "iadd", "imul"],
+    "sd": ["add", "add", "sub", "sub", "eq", "compat", "bins", "bins", "bins", "iter_bins", "mul", "iadd", "isub"],
 }
 
 
@@ -488,11 +508,11 @@ def g_case(rng):
     nb, P, _, _ = dims(x)
     op = dict(op=opk)
     other = None
-    if opk in ("add", "sum", "sub", "eq", "compat"):
+    if opk in ("add", "sum", "sub", "eq", "compat", "iadd", "isub", "accum"):
         kind = rng.choice(other_kinds(x))
         op["other_kind"] = kind
         other = g_other(rng, x, kind)
-    elif opk == "mul":
+    elif opk in ("mul", "imul"):
         op.update(g_scalar(rng))
     elif opk == "mul_sample":
         op.update(g_nonzero_scalar(rng))
@@ -537,6 +557,14 @@ def mk_fixed():
     out.append(dict(x=sd, op=dict(op="sub", other_kind="same"), other=copy.deepcopy(sd)))   # F5
     out.append(dict(x=cf, op=dict(op="add", other_kind="extra-member"), other=cf3))         # members dropped
     out.append(dict(x=cf3, op=dict(op="add", other_kind="missing-member"), other=cf))
+    # running totals and augmented assignments leave their operands alone
+    out.append(dict(x=pc, op=dict(op="accum", other_kind="values"), other=pc2))
+    out.append(dict(x=nc, op=dict(op="accum", other_kind="values"), other=nc2))
+    out.append(dict(x=pc, op=dict(op="iadd", other_kind="values"), other=pc2))
+    out.append(dict(x=nc, op=dict(op="iadd", other_kind="values"), other=nc2))
+    out.append(dict(x=cf, op=dict(op="iadd", other_kind="same"), other=copy.deepcopy(cf)))
+    out.append(dict(x=sd, op=dict(op="isub", other_kind="same"), other=copy.deepcopy(sd)))
+    out.append(dict(x=nc, op=dict(op="imul", k=2.0, ktype="float"), other=None))
     for x in (pc, sw, nc, cf, sd):
         out.append(dict(x=x, op=dict(op="eq", other_kind="same"), other=copy.deepcopy(x)))
         out.append(dict(x=x, op=dict(op="iter_bins"), other=None))
@@ -569,7 +597,11 @@ def one_case(ctx, case, idx):
     t = x_d["t"]
     x = build(x_d)
     other = build(other_d) if other_d is not None else None
-    info = dict(idx=idx, t=t, op=op, case=case, raised=None)
+    info = dict(idx=idx, t=t, op=op, case=case, raised=None, mutated=[])
+    try:
+        before = (enc_val(x), enc_val(other) if other is not None else None)
+    except NonFinite:
+        before = None
     try:
         res = execute(x, op, other)
         kind = "val"
@@ -584,8 +616,22 @@ def one_case(ctx, case, idx):
                               tb=traceback.format_exc()[-1200:])
     nb, P, _, _ = dims(x_d)
     exact = not (t in ("nc", "cf") and op["op"] in ("sample", "bins_sample", "patches_sample", "mul_sample"))
+    # containers are values: no operator, indexer or sampler may change an operand (the in-place forms
+    # x += o may update x itself, never o; a running total started from 0 must not change x either)
+    if before is not None:
+        try:
+            after = (enc_val(x), enc_val(other) if other is not None else None)
+        except NonFinite:
+            after = (None, None)
+        if after[0] != before[0] and op["op"] not in ("iadd", "isub", "imul"):
+            info["mutated"].append("first")
+        if after[1] != before[1]:
+            info["mutated"].append("second")
+        x_term, other_term = build(x_d), (build(other_d) if other_d is not None else None)
+    else:
+        x_term, other_term = x, other
     try:
-        term = "c17_case %s %s %s %s" % (fq.b(exact), enc_val(x), enc_op(op, other), enc_outcome(kind, res))
+        term = "c17_case %s %s %s %s" % (fq.b(exact), enc_val(x_term), enc_op(op, other_term), enc_outcome(kind, res))
     except NonFinite:
         ctx.bump("nonfinite_skipped")
         term = None
@@ -609,6 +655,10 @@ def judge(ctx, info, c):
     cls = CLS[t].lower()
     opn = op["op"].replace("_", "-")
     raised = info["raised"]
+    for which in info.get("mutated", []):
+        ctx.fail("c17-%s-%s-mutates-%s-operand" % (cls, opn, which),
+                 "%s %s changed its %s operand (containers are values; a later use of that operand sees other counts)"
+                 % (CLS[t], opn, which), replay, case=idx)
     if raised is not None and not raised["rejecting"]:
         # AttributeError & co.: a defect of the operator, whatever the model expects
         ctx.fail(raised["sig"], "%s %s raised %s at %s: %s" % (CLS[t], opn, raised["type"], raised["site"], raised["msg"]),
